@@ -46,6 +46,9 @@ func (w *World) c05Cases(full bool) []c05Case {
 		f.Tag = name
 		for fi, fe := range feesM {
 			for _, a := range amts {
+				if !full && (fi == 1 || a == "1") && f.Kind == "hyp" && !(f.Domain == 1 && len(f.Hook) == 0 && f.HookMeta == "") {
+					continue
+				}
 				if !full && fi == 1 && a == "1" {
 					continue
 				}
@@ -79,7 +82,7 @@ func (w *World) c05Cases(full bool) []c05Case {
 		add(fmt.Sprintf("hyp(tok=%s,dom=%d,rcp=%s,hook=%s,gas=%s,fee=%s,meta=%q)", t.n, d, r.n, h.n, trunc(g, 6), trunc(f, 22), m),
 			Fwd{Kind: "hyp", Token: t.b, Domain: d, Recipient: r.b, Hook: h.b, GasLimit: g, MaxFee: f, HookMeta: m})
 	}
-	if full {
+	if full || true { // the full Hyperlane product is cheap enough for every tier (quick restricts fee/amount variants instead)
 		for _, t := range toks {
 			for _, d := range doms {
 				for _, r := range rcps {
